@@ -29,7 +29,7 @@ static long cur_case;
 static char ctx[900];
 
 #define NID 6
-static struct vpki_ent *rootA, *rootB, *idA[NID], *idB[NID], *interA, *viaI;
+static struct vpki_ent *rootA, *rootB, *idA[NID], *idB[NID], *interA, *viaI, *idRSA;
 static char base[600];
 
 static void cv(const char *rule, const char *what, const char *fmt, ...)
@@ -48,6 +48,7 @@ static void make_pki(void)
     for (int i = 0; i < NID; i++) {
         char cn[32]; vpki_opts_default(&o); o.eku = VPKI_EKU_BOTH;
         snprintf(cn, sizeof cn, "id-A%d", i); idA[i] = vpki_make(cn, rootA, &o);
+        if (i == 0) { struct vpki_opts ro = o; ro.rsa_key = true; idRSA = vpki_make("id-A-rsa", rootA, &ro); }      /* same CA, key of another algorithm */
         snprintf(cn, sizeof cn, "id-B%d", i); idB[i] = vpki_make(cn, rootB, &o);
     }
     vpki_opts_default(&o); o.eku = VPKI_EKU_BOTH; viaI = vpki_make("id-via-inter", interA, &o);
@@ -379,13 +380,60 @@ static void run_release(long idx, vrng *r, bool btls)
     vsig_str(btls ? "release|btls" : "release|tls");
 }
 
+
+/* ---- UPDATE DURING LOAD: the credential files are replaced between two reads of one xcm_connect_a.  Whatever the call ends up with is one
+ * configuration or the other, never the certificate and key of one with the trust bundle of the other ---- */
+struct midload { struct cdir *d; struct ident to; int how; bool fired; };
+static void midload_hook(const char *path, void *arg) { (void)path; struct midload *ml = arg; cdir_set(ml->d, ml->to, ml->how); ml->fired = true; }
+
+static void run_midload(long idx, vrng *r, bool btls)
+{
+    (void)idx;
+    const char *proto = btls ? "btls" : "tls";
+    for (int round = 0; round < 4; round++) {
+        struct cdir d; memset(&d, 0, sizeof d); snprintf(d.path, sizeof d.path, "%s/ml%d", base, round); mkdir(d.path, 0700);
+        int how0 = (int)vrnd_n(r, 3), how1 = 1 + (int)vrnd_n(r, 2);          /* the update itself: rename over or symlink flip (atomic per file) */
+        struct ident old = { idA[vrnd_n(r, NID)], 0 }, neu = { idB[vrnd_n(r, NID)], 1 };
+        cdir_set(&d, old, how0);
+        /* the server presents a root-B identity and trusts both roots: old (trusting A only) cannot come up, new comes up as the new identity,
+         * a mix of the old certificate with the new trust bundle would come up as the OLD identity */
+        struct server sv; memset(&sv, 0, sizeof sv);
+        struct xcm_attr_map *sm = xcm_attr_map_create(); xcm_attr_map_add_bool(sm, "xcm.blocking", false); if (btls) xcm_attr_map_add_str(sm, "xcm.service", "bytestream");
+        add_by_value(sm, (struct ident){ idB[0], 2 });
+        char a[64]; snprintf(a, sizeof a, "%s:127.0.0.1:0", proto);
+        { SCX("xcm_server_a", 2); sv.s = xcm_server_a(a, sm); vs_leave(); }
+        xcm_attr_map_destroy(sm);
+        if (!sv.s) { vobs("setup_failed", 1); continue; }
+        sv.port = atoi(strrchr(xcm_local_addr(sv.s), ':') + 1);
+        static const char *const sfx[3] = { "/cert.pem", "/key.pem", "/tc.pem" };
+        struct midload ml = { &d, neu, how1, false };
+        vs_set_fopen_hook(sfx[vrnd_n(r, 3)], midload_hook, &ml);
+        struct xcm_attr_map *cm = xcm_attr_map_create(); xcm_attr_map_add_bool(cm, "xcm.blocking", false); if (btls) xcm_attr_map_add_str(cm, "xcm.service", "bytestream");
+        add_by_files(cm, &d);
+        struct conn c; memset(&c, 0, sizeof c); int cerr, aerr;
+        open_conn(&c, &sv, cm, NULL, proto, &cerr, &aerr);
+        vs_set_fopen_hook(NULL, NULL, NULL);
+        xcm_attr_map_destroy(cm);
+        if (ml.fired) vobs("updates_landed_between_two_reads", 1);
+        if (c.up) {
+            char cn[200] = ""; get_cn(c.ac, cn, sizeof cn);
+            if (ml.fired && !strcmp(cn, old.e->name)) cv("mixed-during-load", proto, "the credential files were replaced (%s) while xcm_connect_a was reading them: the connection came up presenting the OLD certificate (%s) to a server only the NEW trust bundle admits - certificate/key of one configuration, trusted CAs of the other", how1 == 1 ? "rename over" : "symlink flip", cn);
+            else if (strcmp(cn, neu.e->name) && strcmp(cn, old.e->name)) cv("wrong-identity", "during-load", "the server sees '%s', neither the old (%s) nor the new (%s) identity", cn, old.e->name, neu.e->name);
+            else vobs("loads_consistent_new", 1);
+        } else vobs("loads_consistent_old_or_refused", 1);
+        close_conn(&c);
+        { SCX("xcm_close", 2); xcm_close(sv.s); vs_leave(); }
+    }
+    vsig_str(btls ? "midload|btls" : "midload|tls");
+}
+
 /* ---- MALFORMED ---- */
 static void run_malformed(long idx, vrng *r, bool btls)
 {
     (void)idx;
     const char *proto = btls ? "btls" : "tls";
     struct cdir d; memset(&d, 0, sizeof d); snprintf(d.path, sizeof d.path, "%s/bad", base); mkdir(d.path, 0700);
-    for (int k = 0; k < 9; k++) {
+    for (int k = 0; k < 12; k++) {
         cdir_set(&d, (struct ident){ idA[0], 0 }, 0);
         char cp[800], kp[800], tp[800]; snprintf(cp, sizeof cp, "%s/cert.pem", d.path); snprintf(kp, sizeof kp, "%s/key.pem", d.path); snprintf(tp, sizeof tp, "%s/tc.pem", d.path);
         const char *what;
@@ -399,6 +447,9 @@ static void run_malformed(long idx, vrng *r, bool btls)
         case 5: unlink(tp); what = "trust bundle missing"; break;
         case 6: by_value = true; xcm_attr_map_add_bin(m, "tls.cert", idA[0]->cert_pem, strlen(idA[0]->cert_pem)); xcm_attr_map_add_bin(m, "tls.key", idA[2]->key_pem, strlen(idA[2]->key_pem)); xcm_attr_map_add_bin(m, "tls.tc", rootA->cert_pem, strlen(rootA->cert_pem)); what = "by-value key does not match the certificate"; break;
         case 7: by_value = true; xcm_attr_map_add_bin(m, "tls.cert", "garbage", 7); xcm_attr_map_add_bin(m, "tls.key", idA[0]->key_pem, strlen(idA[0]->key_pem)); xcm_attr_map_add_bin(m, "tls.tc", rootA->cert_pem, strlen(rootA->cert_pem)); what = "by-value certificate garbled"; break;
+        case 9: write_inplace(kp, idRSA->key_pem); what = "RSA key with an EC certificate (another algorithm: only the final consistency check can notice)"; break;
+        case 10: write_inplace(cp, idRSA->cert_pem); what = "RSA certificate with an EC key"; break;
+        case 11: by_value = true; xcm_attr_map_add_bin(m, "tls.cert", idRSA->cert_pem, strlen(idRSA->cert_pem)); xcm_attr_map_add_bin(m, "tls.key", idA[0]->key_pem, strlen(idA[0]->key_pem)); xcm_attr_map_add_bin(m, "tls.tc", rootA->cert_pem, strlen(rootA->cert_pem)); what = "by-value RSA certificate with an EC key"; break;
         default: unlink(cp); mkdir(cp, 0700); what = "certificate path is a directory"; break;
         }
         if (!by_value) add_by_files(m, &d);
@@ -423,12 +474,13 @@ static void one_case(long idx, void *arg)
     vrng r = { ss };
     long gi = idx * va.nworkers + va.worker;
     unsigned k = (unsigned)(gi % 10); bool btls = (gi / 10) % 2;
-    const char *fam = k < 6 ? "history" : k < 8 ? "twins" : k < 9 ? "release" : "malformed";
+    bool midload = k == 5;          /* one history slot in six goes to updates that land inside a load */
+    const char *fam = midload ? "update-during-load" : k < 6 ? "history" : k < 8 ? "twins" : k < 9 ? "release" : "malformed";
     snprintf(ctx, sizeof ctx, "{\"case\":%ld,\"sub_seed\":\"%" PRIu64 "\",\"family\":\"%s\",\"transport\":\"%s\"}", idx, ss, fam, btls ? "btls" : "tls");
     VLOG("case %s", ctx);
     snprintf(base, sizeof base, "%s/c18-%d", va.dir, (int)getpid()); mkdir(base, 0700);
     store_init();
-    if (k < 6) run_history(idx, &r, btls); else if (k < 8) run_twins(idx, &r, btls); else if (k < 9) run_release(idx, &r, btls); else run_malformed(idx, &r, btls);
+    if (midload) run_midload(idx, &r, btls); else if (k < 6) run_history(idx, &r, btls); else if (k < 8) run_twins(idx, &r, btls); else if (k < 9) run_release(idx, &r, btls); else run_malformed(idx, &r, btls);
     { char cmd[700]; snprintf(cmd, sizeof cmd, "rm -rf '%s'", base); if (system(cmd)) {} }
     char cl[64]; snprintf(cl, sizeof cl, "%s/%s", fam, btls ? "btls" : "tls"); vclass(cl);
     if (idx < 2) vsample(ctx);
